@@ -85,6 +85,7 @@ def handlePP (a b : String) : String :=
     match gen s1 s2 with
     | .panic => "r=panic cons=- sound=-"
     | .no => "r=no cons=- sound=-"
+    | .fuel => "r=fuel cons=- sound=-"
     | .ok ps =>
       let cons := decide (Consistent ps)
       let sound := interpolate (lookupLast ps) s1 == s2
